@@ -48,6 +48,134 @@ func runC11(p *load.Program, r *core.Report) {
 	c11Format(p, r)
 	c11Discriminators(p, r)
 	c11CacheDirection(p, r)
+	c11Composite(p, r)
+}
+
+// c11Composite: E7 — folded type descriptors of unnamed composites: every composite tag the
+// encoder puts at the head of a type prefix has an arm in the decoder's type unfolding, and inside
+// each arm the value decoder checks the same tag the value encoder appends.
+func c11Composite(p *load.Program, r *core.Report) {
+	rule := "C11.E7 composite-descriptors"
+	r.Floor(rule, 3)
+	pk := p.Pkg("net/edf")
+	// encoder side: prefix := append([]byte{edtX, ...}, ...) and the AppendByte(edtY) calls in the same function literal scope
+	type encArm struct {
+		head    string
+		appends map[string]bool
+		pos     token.Pos
+	}
+	var encArms []encArm
+	for _, file := range pk.Syntax {
+		ast.Inspect(file, func(n ast.Node) bool {
+			var list []ast.Stmt
+			var scope ast.Node
+			switch x := n.(type) {
+			case *ast.BlockStmt:
+				list, scope = x.List, x
+			case *ast.CaseClause:
+				list, scope = x.Body, x
+			default:
+				return true
+			}
+			blk := scope
+			for _, st := range list {
+				as, ok := st.(*ast.AssignStmt)
+				if !ok || len(as.Rhs) != 1 {
+					continue
+				}
+				ce, ok := as.Rhs[0].(*ast.CallExpr)
+				if !ok || types.ExprString(ce.Fun) != "append" || len(ce.Args) < 1 {
+					continue
+				}
+				cl, ok := ce.Args[0].(*ast.CompositeLit)
+				if !ok || len(cl.Elts) == 0 {
+					continue
+				}
+				head := types.ExprString(cl.Elts[0])
+				if !strings.HasPrefix(head, "edt") {
+					continue
+				}
+				arm := encArm{head: head, appends: map[string]bool{}, pos: as.Pos()}
+				ast.Inspect(blk, func(m ast.Node) bool {
+					c2, ok := m.(*ast.CallExpr)
+					if ok && strings.HasSuffix(types.ExprString(c2.Fun), ".AppendByte") && len(c2.Args) == 1 {
+						if id, ok := c2.Args[0].(*ast.Ident); ok && strings.HasPrefix(id.Name, "edt") && id.Name != "edtNil" {
+							arm.appends[id.Name] = true
+						}
+					}
+					return true
+				})
+				encArms = append(encArms, arm)
+			}
+			return true
+		})
+	}
+	// decoder side: decodeType's switch arms
+	decArms := map[string]map[string]bool{}
+	if fd, _ := p.FuncDecl("net/edf", "", "decodeType"); fd != nil {
+		ast.Inspect(fd.Body, func(n ast.Node) bool {
+			cc, ok := n.(*ast.CaseClause)
+			if !ok || len(cc.List) != 1 {
+				return true
+			}
+			label := types.ExprString(cc.List[0])
+			if !strings.HasPrefix(label, "edt") {
+				return true
+			}
+			cmp := map[string]bool{}
+			ast.Inspect(cc, func(m ast.Node) bool {
+				be, ok := m.(*ast.BinaryExpr)
+				if ok && (be.Op == token.NEQ || be.Op == token.EQL) {
+					if id, ok := be.Y.(*ast.Ident); ok && strings.HasPrefix(id.Name, "edt") && id.Name != "edtNil" {
+						if strings.HasPrefix(types.ExprString(be.X), "packet[0]") {
+							cmp[id.Name] = true
+						}
+					}
+				}
+				return true
+			})
+			decArms[label] = cmp
+			return false
+		})
+	}
+	if len(encArms) == 0 || len(decArms) == 0 {
+		r.Unk(rule, "C11.E7|arms", "", "", "composite encoders and decodeType arms found", fmt.Sprintf("encoder arms %d, decoder arms %d", len(encArms), len(decArms)))
+		return
+	}
+	seen := map[string]bool{}
+	for _, ea := range encArms {
+		if seen[ea.head] {
+			continue
+		}
+		seen[ea.head] = true
+		key := "C11.E7|" + ea.head
+		inst := "composite tag " + ea.head + ": the type prefix is unfolded by the decoder and value encoder and value decoder use the same tag"
+		var probs []string
+		da, ok := decArms[ea.head]
+		if !ok {
+			probs = append(probs, "the decoder's type unfolding has no arm for it: a value of such a type cannot be decoded")
+		} else {
+			for t := range ea.appends {
+				if !da[t] {
+					probs = append(probs, fmt.Sprintf("the value encoder appends %s but the value decoder checks %v", t, keysOf(da)))
+				}
+			}
+		}
+		if len(probs) > 0 {
+			r.Bad(rule, key, "net/edf", p.Pos(ea.pos), inst, strings.Join(probs, "; "))
+		} else {
+			r.OK(rule, key, "net/edf", p.Pos(ea.pos), inst, fmt.Sprintf("encoder appends %v, decoder checks %v", keysOf(ea.appends), keysOf(da)))
+		}
+	}
+}
+
+func keysOf(m map[string]bool) []string {
+	var ks []string
+	for k := range m {
+		ks = append(ks, k)
+	}
+	sort.Strings(ks)
+	return ks
 }
 
 func typeOfArg(info *types.Info, e ast.Expr) string {
